@@ -3,7 +3,7 @@ import ast
 
 import z3
 
-from .values import BreakEx, ContinueEx, PathEnd, Unsupported
+from .values import BreakEx, ContinueEx, PathEnd, Unsupported, ModelValue
 from .sym import Sym, Arr, Obj, DequeV, UserFn, ND
 from .domain import RangeV
 
@@ -33,6 +33,14 @@ def assigned_names(node):
             walk(c)
     walk(node)
     return out
+
+
+class DeadLocal(ModelValue):
+    """value of a local that is not bound at the loop head (it must be assigned in the body before any use)"""
+    __slots__ = ("name",)
+
+    def __init__(self, name):
+        self.name = name
 
 
 class Unroll:
@@ -94,8 +102,13 @@ class Cut:
         self._check(interp, env, name, "established")
         mods = assigned_names(node) | self.extra_modified
         self.pre_cut(interp, env)
+        pre_bound = {nm for nm in mods if env.has(nm)}
         havocked = self.havoc(interp, env)
         missing = mods - set(havocked)
+        # a name first bound inside the loop (a new temporary) is dead at the loop head: poisoned, not an error
+        for nm in sorted(missing - pre_bound):
+            env.set(nm, DeadLocal(nm))
+        missing &= pre_bound
         if missing:
             raise Unsupported(f"{name}: invariant does not havoc loop-modified variables {sorted(missing)}")
         run.reset_pc(run.ghost.get("base_pc", []))
